@@ -87,6 +87,7 @@ fn main() {
                 owned: None,
                 replay_dir: "/verif/replays".into(),
                 max_replays: 20,
+                fork: None,
             };
             let mut i = 1;
             let val = |i: &mut usize| -> String {
@@ -105,6 +106,18 @@ fn main() {
                     "--borrowed" => o.owned = Some(false),
                     "--replay-dir" => o.replay_dir = val(&mut i),
                     "--max-replays" => o.max_replays = val(&mut i).parse().unwrap_or_else(|_| usage()),
+                    "--monitors" => {
+                        let v: Vec<String> = val(&mut i).split(',').filter(|x| !x.is_empty()).map(|x| x.to_string()).collect();
+                        let _ = monitor::ONLY.set(v);
+                    }
+                    "--fork" => {
+                        // --fork RUN:NLABELS
+                        let v = val(&mut i);
+                        let mut it = v.split(':');
+                        let r = it.next().and_then(|x| x.parse().ok()).unwrap_or_else(|| usage());
+                        let n = it.next().and_then(|x| x.parse().ok()).unwrap_or_else(|| usage());
+                        o.fork = Some((r, n));
+                    }
                     _ => usage(),
                 }
                 i += 1;
